@@ -160,6 +160,7 @@ def sweep(rep, wd, engine, ctx, label, quick, rng):
         # argument values per signature
         argvals = {}
         falsyvals = {}
+        nullvals = {}
 
         def choose_args(si):
             name, fd, ps = infos[si]
@@ -206,6 +207,22 @@ def sweep(rep, wd, engine, ctx, label, quick, rng):
                             break
                     except Exception:
                         continue
+            return out if changed else None
+
+        def null_args(si, vals):
+            """the chosen tuple with null in every parameter that accepts it: a null that is passed is an argument like any other"""
+            name, fd, ps = infos[si]
+            out = list(vals)
+            changed = False
+            for j, p in enumerate(ps):
+                if vals[j][0] != 'val' or vals[j][1] is None:
+                    continue
+                try:
+                    if p.value_type.check(None, ctx, engine):
+                        out[j] = ('val', None)
+                        changed = True
+                except Exception:
+                    continue
             return out if changed else None
 
         def render(name, fd, ps, vals, given, m, form, explicit):
@@ -280,7 +297,8 @@ def sweep(rep, wd, engine, ctx, label, quick, rng):
             if si not in argvals:
                 argvals[si] = choose_args(si)
                 falsyvals[si] = falsy_args(si, argvals[si])
-            for variant, vals in (('chosen', argvals[si]), ('falsy', falsyvals[si])):
+                nullvals[si] = null_args(si, argvals[si])
+            for variant, vals in (('chosen', argvals[si]), ('falsy', falsyvals[si]), ('nulls', nullvals[si])):
                 if vals is None:
                     continue
                 if variant == 'falsy' and not any(ps[i - 1].default is not specs.NO_DEFAULT for i in given):
